@@ -105,10 +105,10 @@ package mqtt
 //@   props C18
 //@   pure
 //@   requires c != nil && ctx != nil
-//@   ensures[C18] no_timeout: c.ResponseTimeout == 0 ==> result0 == ctx
-//@   ensures[C18] timeout: c.ResponseTimeout != 0 ==> result0 != nil && evCount("context.WithTimeout") == 1 &&
+//@   ensures[C01,C02,C03,C08,C11,C12,C18] no_timeout: c.ResponseTimeout == 0 ==> result0 == ctx
+//@   ensures[C01,C02,C03,C08,C11,C12,C18] timeout: c.ResponseTimeout != 0 ==> result0 != nil && evCount("context.WithTimeout") == 1 &&
 //@        evArg[context.Context]("context.WithTimeout", 0, 0) == ctx && evArg[time.Duration]("context.WithTimeout", 0, 1) == c.ResponseTimeout
-//@   ensures[C18] result1 != nil
+//@   ensures[C01,C02,C03,C08,C12,C18] result1 != nil
 
 //@ func (*RetryClient).Handle
 //@   mode int
@@ -165,7 +165,7 @@ package mqtt
 //@   props C18 C11
 //@   requires c != nil
 //@   assigns nothing
-//@   ensures[C18] reported: evCount("callback:func(error)") == ite(c.OnError != nil, 1, 0) &&
+//@   ensures[C01,C02,C03,C08,C12,C18] reported: evCount("callback:func(error)") == ite(c.OnError != nil, 1, 0) &&
 //@        (evCount("callback:func(error)") == 1 ==> evArg[error]("callback:func(error)", 0, 0) == err)
 
 //@ func (*RetryClient).publish$1
